@@ -6,7 +6,8 @@ Everything is about `lottery fl q p1 p2 p3` (`Model/Lottery.lean`): the lottery 
 submitted `fl[i]` flips, with short-session quota `q`, for ARBITRARY permutation streams `p1 p2 p3` (what Go's
 `math/rand` delivers is an input; the correspondence run feeds the streams derived from the lottery seed exactly as
 `lottery.go:299,88,155` derive them).  `h : lottery … = .ok r` is not a restriction: `lottery_total` shows that the
-only other outcome is `badInput` (a stream that `rand.Perm` cannot produce), in particular the code never panics
+only other outcome is `badInput`, `lottery_ok_of_valid_streams` that `badInput` needs a stream `rand.Perm` cannot
+produce (wrong length, entry out of range, too few permutations); in particular the code never panics
 (`lottery_ne_panic`) and the recursion measures suffice (`lottery_ne_fuel`).
 
 Two theorems need named hypotheses:
@@ -337,6 +338,30 @@ theorem lottery_total (hsize : p3.length * q < 999999) :
   | badInput => left; rfl
   | fuel => exact absurd hr lottery_ne_fuel
 
+/-- with permutation streams as `math/rand.Perm` delivers them (and in the quantity the harness supplies: enough
+author permutations to fill the queue, 14 candidate permutations when the top-up runs) the lottery returns a result:
+the hypothesis `h : lottery … = .ok r` of the theorems above is met by every real run -/
+theorem lottery_ok_of_valid_streams (hsize : p3.length * q < 999999)
+    (h1v : ∀ p ∈ p1, ValidPerm (authorsIndexes fl).length p)
+    (h1n : authorsIndexes fl ≠ [] → p1 ≠ [] ∧ fl.length * q ≤ p1.length * (authorsIndexes fl).length)
+    (h2v : ∀ p ∈ p2, ValidPerm fl.length p) (h2n : 7 < (authorsIndexes fl).length → 14 ≤ p2.length) :
+    ∃ r, lottery fl q p1 p2 p3 = .ok r := by
+  rcases lottery_total (fl := fl) (q := q) (p1 := p1) (p2 := p2) (p3 := p3) hsize with hb | h
+  · exfalso
+    unfold lottery at hb
+    have hne := authorsDistribution_ne_bad fl q p1 p2 h1v h1n h2v h2n
+    rcases authorsDistribution_spec fl q p1 p2 with hb' | ⟨apc, cpa, e, _⟩
+    · exact hne hb'
+    · rw [e] at hb
+      simp only at hb
+      unfold flipsDistribution at hb
+      simp only at hb
+      rcases distLoop_ok_or_panic (fl := fl) (apc := apc) (q := q) p3 (List.replicate fl.length 0)
+        (List.replicate fl.length 0) (List.replicate fl.length []) (List.replicate fl.length []) with hp | ⟨x, hx⟩
+      · rw [hp] at hb; cases hb
+      · rw [hx] at hb; cases hb
+  · exact h
+
 /-! ## non-vacuity: concrete shards on which every hypothesis above is met (kernel-evaluated) -/
 
 /-- 3 candidates, candidates 0 and 2 submitted one flip each, quota 2: both flips are used up by the short session,
@@ -365,6 +390,8 @@ theorem ex_topup : lottery exFl2 1 [[7,2,3,6,1,8,4,0,5]] exP2 [1,8,7,0,4,5,6,2,3
 /-- a shard of 3 candidates without flips: nothing is assigned (this is the statement F12 violated before the repair) -/
 theorem ex_empty : lottery [0,0,0] 8 [] [] [1,2,0] = .ok ⟨[[],[],[]], [[],[],[]], [[],[],[]], [[],[],[]]⟩ := by decide
 
+example : ∃ r, lottery exFl2 1 [[7,2,3,6,1,8,4,0,5]] (exP2 ++ exP2) [1,8,7,0,4,5,6,2,3] = .ok r :=
+  lottery_ok_of_valid_streams (by decide) (by decide) (by decide) (by decide) (by decide)
 example : (1 : Nat) < exFl.sum := flips_in_range ex_small 0 1 (Or.inl (by decide))
 example : look exR.long 1 ≠ [] := long_nonempty_if_flips ex_small (by decide) 1 (by decide)
 example : look (⟨[[],[],[]], [[],[],[]], [[],[],[]], [[],[],[]]⟩ : Result).long 1 = [] :=
